@@ -73,9 +73,15 @@ def check_document_shape(ctx):
         if f is None:
             continue
         for p_ in f.positional_params[1:]:
-            used = any(isinstance(x, ast.Attribute) and x.attr in MAPPING_USE and isinstance(x.value, ast.Name) and x.value.id == p_
+            def is_p(nm_, f=f, p_=p_):
+                """the parameter, or a local copy of it (an inlined helper's own parameter name)"""
+                if nm_.id == p_:
+                    return True
+                srcs_ = value_sources(f, nm_, None)
+                return any(k_ == "param" and pl_ == p_ for k_, pl_ in srcs_)
+            used = any(isinstance(x, ast.Attribute) and x.attr in MAPPING_USE and isinstance(x.value, ast.Name) and is_p(x.value)
                        and isinstance(getattr(x, "_parent", None), ast.Call) and x._parent.func is x for x in ast.walk(f.node)) or \
-                any(isinstance(x, ast.Subscript) and isinstance(x.value, ast.Name) and x.value.id == p_ for x in ast.walk(f.node))
+                any(isinstance(x, ast.Subscript) and isinstance(x.value, ast.Name) and is_p(x.value) for x in ast.walk(f.node))
             if used and p_ in ("tree", "value", "data", "document") or (used and nm == "_process_includes" and p_ == f.positional_params[2]):
                 consumers[f] = p_
     ctx.need(len(consumers) >= 2, "the mapping-consuming functions of the load route were not found")
@@ -395,8 +401,22 @@ def check(ctx):
         for r in sp.normal_returns():
             if r.ast.value is None:
                 continue
-            exprs = [r.ast.value] + [pl for k, pl in sp.sources(r.ast.value, r) if k == "expr" and isinstance(pl, ast.AST)]
-            uses_owner = any(is_owner(x, r) for e in exprs for x in ast.walk(e) if isinstance(x, (ast.Attribute, ast.Call, ast.Name)))
+            def mentions_owner(e, at, depth=0, sp=sp):
+                """the owner's path is part of what e is computed from (through locals: `field_path = owner_path + '.' + key`)"""
+                if depth > 6:
+                    return False
+                for x in ast.walk(e):
+                    if isinstance(x, (ast.Attribute, ast.Call)) and is_owner(x, at):
+                        return True
+                    if isinstance(x, ast.Name) and isinstance(x.ctx, ast.Load):
+                        if is_owner(x, at):
+                            return True
+                        for k, pl in sp.sources(x, at):
+                            if k == "expr" and isinstance(pl, ast.AST) and not isinstance(pl, ast.Name) and pl is not e \
+                                    and mentions_owner(pl, sp.where.get(id(pl)) or at, depth + 1):
+                                return True
+                return False
+            uses_owner = mentions_owner(r.ast.value, r)
             ctx.ob("path.proxy-uses-owner-path", f, r.ast, uses_owner,
                    "for a configuration that has a path of its own, the entry path starts from it" if uses_owner else
                    "%s builds the path of an entry from the field's place in the schema only: for a configuration held in a list (or built "
